@@ -110,6 +110,39 @@ Theorem C06_reuse_partial : forall (F : Type) (I : Fld F), FldLaws F ->
 Proof. intros F I L. exact (@solve_reuse F I L). Qed.
 Print Assumptions C06_reuse_partial.
 
+(* reuse along a history: a right-hand side in the span of right-hand sides solved EARLIER IN THE HISTORY for the
+   current matrix through the same storage (any solves in between, no update()) is answered without calling the
+   inner solver.  partial: same dtype condition as above (K01). *)
+Theorem C06_history_reuse_partial : forall (F : Type) (I : Fld F), FldLaws F ->
+  forall inner (st : @state F) (c : bool) (A : mat F) (sym herm : bool)
+         (crhs1 isvec1 : bool) (RHS1 : list (vec F)) (X01 : option (list (vec F))) (t1 : Z) (ops : list (@op F))
+         (crhs2 isvec2 : bool) (RHS2 : list (vec F)) (X02 : option (list (vec F))) (t2 : Z),
+  state_inv inner st -> s_A st = Some (c, A) -> s_sym st = Some sym -> s_herm st = Some herm ->
+  trans_valid t1 = true -> Forall (fun r => length r = length A) RHS1 ->
+  solves_only ops -> hist_ok inner (fst (solve inner st crhs1 isvec1 RHS1 X01 t1)) ops ->
+  trans_valid t2 = true -> Forall (fun r => length r = length A) RHS2 ->
+  adjoint_mode sym herm t2 = adjoint_mode sym herm t1 ->
+  (c || crhs2 = true \/
+   Forall (fun p => p_tag p = false)
+          (sel_db (final inner (fst (solve inner st crhs1 isvec1 RHS1 X01 t1)) ops) sym herm t2)) ->
+  Forall (fun rhs2 => span (length A) (map (fun r1 => pn (s_mask st) (tr_rhs sym herm t1 r1)) RHS1)
+                           (pn (s_mask st) (tr_rhs sym herm t2 rhs2))) RHS2 ->
+  exists res, snd (solve inner (final inner (fst (solve inner st crhs1 isvec1 RHS1 X01 t1)) ops)
+                         crhs2 isvec2 RHS2 X02 t2) = inr res /\ r_call res = None.
+Proof. intros F I L. exact (@history_reuse F I L). Qed.
+Print Assumptions C06_history_reuse_partial.
+
+(* nothing stored for an earlier matrix is used after update(): the databases are empty (C06_update_clears) and
+   with an empty database a right-hand side with non-zero non-diagonal part always reaches the inner solver *)
+Theorem C06_empty_db_calls_inner : forall (F : Type) (I : Fld F), FldLaws F ->
+  forall (n : nat) (A : mat F) (cplxA : bool) (m : list bool) (adj : bool)
+         (solve_fn : list (vec F) -> option (list (vec F)) -> list (vec F))
+         (crhs isvec : bool) (rhs : vec F) (X0 : option (list (vec F))),
+  wfm n A -> Decoupled n A m -> length rhs = n -> pn m rhs <> vzero n ->
+  snd (do_solve A cplxA m [] adj solve_fn crhs isvec [rhs] X0) <> None.
+Proof. intros F I L. exact (@empty_db_calls_inner F I L). Qed.
+Print Assumptions C06_empty_db_calls_inner.
+
 (* the model omits `badd /= bnrm; xadd /= bnrm`: the three expressions through which a stored pair is used are
    invariant under a common non-zero scaling of the pair *)
 Theorem C06_normalisation_irrelevant : forall (F : Type) (I : Fld F), FldLaws F ->
